@@ -70,6 +70,8 @@ class Bench:
         self.tmo_kind = {}     # id(Timeout) -> "resolve" | "tcp"
         self.steps = []        # (label, model event) for evidence/debugging
         self.raw_escapes = []
+        self.refused = 0
+        self.extra_accepted = []
 
     def _on_state(self, msg):
         self.deliv += 1
@@ -151,7 +153,7 @@ class Bench:
         stops = " ".join("1" if e else "0" for e in self.stops)
         return (f"st={STATE[c.connection_state]} conn={1 if c.is_connected else 0} hs={1 if c._handshake_complete else 0} fatal={fatal} stops=[{stops}] tr={tr} sock={sock} "
                 f"timers=[{' '.join(self._classify_timers())}] writes={writes} deliv={self.deliv} "
-                f"start={self._outcome('start')} finish={self._outcome('finish')} disc={self._outcome('disc')}")
+                f"start={self._outcome('start')} finish={self._outcome('finish')} disc={self._outcome('disc')} refused={self.refused}")
 
     def emit(self, ev):
         self.lines.append("cn.ev " + ev if ev != "nop" else "cn.nop")
@@ -160,6 +162,26 @@ class Bench:
     # ------------------------------------------------------------------ operations
     def spawn(self, name, coro):
         self.tasks[name] = tasks._PyTask(coro, loop=self.loop, name=name, eager_start=True)
+
+    def phase_call(self, name, coro, ev):
+        """a phase call is either refused at once by the state guard (RuntimeError; counted) or becomes THE task of
+        that phase; a duplicate call while the first is still in progress is outside the scenarios"""
+        t = self.tasks.get(name)
+        if t is not None and not t.done():
+            coro.close()
+            return
+        if t is not None and STATE[self.conn.connection_state] == ("init" if name == "start" else "sockOpen"):
+            coro.close()   # (finish refused earlier, now acceptable: keep one task per phase, skip)
+            return
+        nt = tasks._PyTask(coro, loop=self.loop, name=name if t is None else name + "#again", eager_start=True)
+        if nt.done() and not nt.cancelled() and isinstance(nt.exception(), RuntimeError):
+            self.refused += 1
+        elif t is None:
+            self.tasks[name] = nt
+        else:
+            self.extra_accepted.append((name, nt))   # a second attempt was ACCEPTED on a used object
+            self._keep = getattr(self, "_keep", []) + [nt]
+        self.emit(ev)
 
     def do_step(self):
         loop = self.loop
@@ -201,13 +223,28 @@ class Bench:
         return True
 
     def apply(self, op):
+        try:
+            self._apply(op)
+        except Exception as e:  # noqa: BLE001 — an exception escaping a transport/protocol callback or a user call
+            self.raw_escapes.append((op[0], repr(e)))
+            self.emit("nop" if op[0] in ("step", "timer") else self._ev_name(op))
+
+    @staticmethod
+    def _ev_name(op):
+        k = op[0]
+        if k == "data":
+            return "data " + " ".join(op[1])
+        if k == "cancel":
+            return {"start": "cancelStart", "finish": "cancelFinish", "disc": "cancelDisc"}[op[1]]
+        if k in ("resolved", "sockDone", "setWrite"):
+            return f"{k} {op[1]}"
+        return k
+
+    def _apply(self, op):
         net, conn, loop = self.net, self.conn, self.loop
         k = op[0]
         if k == "callStart":
-            if "start" in self.tasks:
-                return
-            self.spawn("start", conn.start_connection())
-            self.emit("callStart")
+            self.phase_call("start", conn.start_connection(), "callStart")
         elif k == "resolved":
             if not net.resolve_futs or net.resolve_futs[0].done():
                 return
@@ -219,10 +256,7 @@ class Bench:
             net.complete_sock(None if op[1] else OSError(111, "refused"))
             self.emit(f"sockDone {1 if op[1] else 0}")
         elif k == "callFinish":
-            if "finish" in self.tasks:
-                return
-            self.spawn("finish", conn.finish_connection(login=self.login))
-            self.emit("callFinish")
+            self.phase_call("finish", conn.finish_connection(login=self.login), "callFinish")
         elif k == "callDisc":
             if "disc" in self.tasks:
                 return
